@@ -27,6 +27,7 @@ def pTarget : Wire.P Target := do
   match t with
   | "render" => pure .render | "validate" => pure .validate | "write" => pure .write
   | "resolve" => pure .resolve | "cwrite" => pure .cwrite
+  | "finhook" => pure .finhook
   | _ => failure
 
 def pCache : Wire.P CacheArg := do
@@ -47,6 +48,7 @@ def pOp : Wire.P Op := do
   let t ← word
   match t with
   | "render" => pure .render
+  | "str" => pure .str
   | "initRender" => do
     let it ← bool; let fin ← bool; let cs ← bool; let asc ← bool; let rp ← bool
     pure (.initRender it fin cs asc rp)
@@ -86,7 +88,7 @@ def outcomeStr : Option (Option Exc) → String
   | some (some e) => "err " ++ excName e
 
 def closedMask (w : World) : String :=
-  String.join ((List.range w.nIters).map fun i => fmtBool (w.iters i).closed)
+  String.join ((List.range w.nIters).map fun i => fmtBool ((w.iters i).closed || (w.iters i).dropped))
 
 def objStr (w : World) (d : Nat) : String :=
   let o := w.objs d
@@ -115,6 +117,18 @@ def handler : Handler := fun op args =>
       pure (match (run sem (initChecks l c) none w).2.2 with
         | some e => "err " ++ excName e
         | none => s!"ok {if infOf fc l then "inf" else toString (loopOf fc l)} {fmtBool (cachedOf fc c)} {fmtBool (unbounded fc l)}")) args
+  -- `RenderData.finalize()` called n times on one fresh object, each call under its own fault plan
+  | "finseq" => Wire.run (do
+      let cs ← listOf (do
+        let b ← word; let f ← pFault
+        match b with
+        | "l" => pure (By.lib, f) | "c" => pure (By.caller, f) | "d" => pure (By.del, f)
+        | _ => failure)
+      let w0 := apply (.newData .caller true true) (init 2)
+      let (w, outs) := cs.foldl (fun (acc : World × List String) (c : By × Flt) =>
+        let r := run sem (finalizeP 0 c.1) c.2 acc.1
+        (r.1, acc.2 ++ [outcomeStr (some r.2.2)])) (w0, [])
+      pure ("ok " ++ String.intercalate "|" outs ++ s!" # {(w.objs 0).finCalls} {fmtBool (w.objs 0).finalized}")) args
   -- `isinstance(e, Exception)` as the model has it
   | "isexc" => Wire.run (do let e ← pExcAny; pure ("ok " ++ fmtBool e.isException)) args
   | _ => none
